@@ -156,6 +156,8 @@ type Variable struct {
 	Used   bool
 	Origin VariableOriginKind
 	IsPub  bool
+	// Whether an imported item comes from a module which the host implements (a host function, not a compiled one).
+	FromHost bool
 }
 
 func NewVar(typ ast.Type, span errors.Span, origin VariableOriginKind, isPub bool) Variable {
